@@ -268,6 +268,9 @@ pub fn run(ctx: &Ctx) -> i32 {
         case_time(tg[(i / (nto * no)) as usize], offs[(i / nto % no) as usize], op, v, acc);
     });
     machine::run_datetime_machine(&mut rep, if ctx.thorough { 3 } else { 2 }, DtMenu::SetClear);
+    machine::run_datetime_machine(&mut rep, if ctx.thorough { 5 } else { 4 }, DtMenu::Mixed);
+    machine::run_datetime_paths(&mut rep, if ctx.thorough { 4 } else { 3 }, DtMenu::SetClear);
+    machine::run_datetime_paths(&mut rep, if ctx.thorough { 5 } else { 4 }, DtMenu::Mixed);
     rep.finish()
 }
 
